@@ -18,6 +18,13 @@
                       over the table layout Packs.Irregular.StatGeneralTable): three accesses, then Write
                       →  <ok|fail>,<ok|fail>,<ok|fail> <raw|table>   (raw: Write emits the undecoded bytes)
 
+    RX <xkinds> <hex> program of the fixed-width readers no writer reaches (FailClosed.Extra.rdAll; xkinds from
+                      shortLE,ushortLE,intLE,uintLE,uint,ushort,decLen<sz>)  →  ok <rest> <v1;v2;…> | fail
+    PH <kinds> <hex,hex,…>   a HISTORY of decodes of a program of primitive reads through one kept reader that is
+                      re-pointed by replacing its buffer (FailClosed.Pooled.runHist replace, failed decodes
+                      leave everything they were given in the reader)  →  <ok|fail>,<ok|fail>,…
+    PHV <hex,hex,…>   the same for value.ReadValue
+
   <kinds> = comma separated read kinds (bool,byte,short,…,textArr) or `-`.
   `VF`/`RF` must only be given inputs whose length fields are honest (prefixes of valid
   encodings): the as-found model materialises the zero padding of a short read.
@@ -28,6 +35,9 @@ import Golib.FailClosed.LayoutA
 import Golib.Gen.PackLayouts
 import Golib.Packs.Irregular
 import Golib.FailClosed.Lazy
+import Golib.FailClosed.Pooled
+import Golib.FailClosed.ExtraReads
+import Golib.FailClosed.ValueStream
 import Driver.Common
 
 open FailClosed Prim Drv
@@ -57,6 +67,16 @@ def kindOp (k : String) : Option Op :=
   | "doubleArr" => some (.doubleArr [])
   | "textArr" => some (.textArr [])
   | _ => none
+
+def xkind (k : String) : Option Extra.K :=
+  match k with
+  | "shortLE" => some .shortLE
+  | "ushortLE" => some .ushortLE
+  | "intLE" => some .intLE
+  | "uintLE" => some .uintLE
+  | "uint" => some .uint
+  | "ushort" => some .ushort
+  | _ => if k.startsWith "decLen" then (parseNat (k.drop 6).toString).map Extra.K.decLen else none
 
 def showRes (r : Option (α × Bytes)) (c : Nat) : String :=
   match r with
@@ -171,6 +191,26 @@ def answer (line : String) : String :=
   | ["TH", hex] =>
     match ofHex hex with
     | some bs => tableHistory bs
+    | none => "bad-op"
+  | ["RX", kinds, hex] =>
+    match parseList xkind kinds, ofHex hex with
+    | some ks, some bs =>
+      match P.run (Extra.rdAll ks) bs with
+      | some (vs, rest) => s!"ok {rest.length} {";".intercalate (vs.map toString)}"
+      | none => "fail"
+    | _, _ => "bad-op"
+  | ["PH", kinds, hexes] =>
+    match parseList kindOp kinds, parseList ofHex hexes with
+    | some ops, some inputs =>
+      ",".intercalate ((Pooled.runHist Pooled.replace (readAll ops) id [] inputs).map
+        (fun o => if o.isSome then "ok" else "fail"))
+    | _, _ => "bad-op"
+  | ["PHV", hexes] =>
+    match parseList ofHex hexes with
+    | some inputs =>
+      let fuel := inputs.foldl (fun m i => max m i.length) 0 + 2
+      ",".intercalate ((Pooled.runHist Pooled.replace (valueP fuel) id [] inputs).map
+        (fun o => if o.isSome then "ok" else "fail"))
     | none => "bad-op"
   | ["LP", hex] =>
     match ofHex hex with
